@@ -1251,6 +1251,12 @@ class PhasedVcfWriter(VcfAugmenter):
                 else:
                     # Unphased. For the String tag HP, None would be written as an empty field
                     call[self.tag] = "." if self.tag == "HP" else None
+            if self.tag == "HP" and "HP" in record.format:
+                # When HP is new in this record, pysam leaves it uninitialised for the samples
+                # that were not assigned a value above
+                for call in record.samples.values():
+                    if all(value is None for value in call["HP"]):
+                        call["HP"] = "."
             prev_pos = pos
         return genotype_changes
 
